@@ -115,7 +115,8 @@ P = {
          '(C13_subsegments_lie_on_their_edges, an invariant of the whole sweep incl. the overlap arm) and every point of every non-degenerate '
          'input edge lies on such a pair (C13_subsegments_cover_their_edges); for every instance no event is '
          'returned twice and a complete sweep returns every event (C13_no_event_returned_twice, C13_complete_sweep_returns_every_event). '
-         'Planarity (no two sub-segments cross) is NOT proved. Per run on the complete event vectors: left-first, non-zero length (all families); no improper '
+         'Planarity is proved for pairs of ONE operand only (C13_same_operand_subsegments_do_not_overlap: they share at most one point); that '
+         'sub-segments of different operands cross nowhere or coincide needs the completeness of the intersection search and is NOT proved. Per run on the complete event vectors: left-first, non-zero length (all families); no improper '
          'contact between any two sub-segments and exact coverage of every input edge (exact families, rational Python). Bit-exact '
          'correspondence of the full event vector with the model, all four operations, also at scales 2^-60 .. 2^40.', '§7 C13',
          'Coq: queue-filling theorems; correspondence on event vectors; exact planarity check'),
@@ -144,8 +145,9 @@ P = {
          'boxes. The step itself at the exact instance: disjoint closed segments are left untouched with code 0, a single meeting point '
          'with a shared left/right endpoint or at an endpoint of each segment divides nothing, and every event the step creates lies at ONE '
          'point, the common point returned (C16_new_events_at_one_point; the one-ulp bump is the identity over exact arithmetic). The '
-         'kernel is independent of the order of two non-parallel segments (C16_order_independent_none/_point). The overlap arm (typing, '
-         'division at the overlap ends) is NOT proved. possible_intersection is tied to the '
+         'kernel is independent of the order of two non-parallel segments (C16_order_independent_none/_point); every event the step creates, '
+         'in every arm, lies on BOTH segments - in the overlap arm at an end of the common part (C16_new_events_lie_on_both_segments). The '
+         'typing of the coincident pieces is NOT proved. possible_intersection is tied to the '
          'model exhaustively on the lattice (43 200 configurations) and on float pairs; all clauses checked against exact rational '
          'geometry. The one-ulp bump (N2) is a known finding on floats.', '§7 C16',
          'Coq: intersection_exact_all, clamp, point-arm theorems of possible_intersection; exhaustive lattice correspondence'),
